@@ -140,6 +140,26 @@ theorem fixedOut_no_drift {s : AState ℚ ℚ} (hi : FixedOut.Inv s) (h0 : s.las
   · apply mul_le_mul_of_nonneg_left _ (le_of_lt hr); linarith
   · apply mul_lt_mul_of_pos_left _ hr; linarith
 
+/-- the same for ANY filter length (a user-supplied interpolator may have an odd one): the read position starts at
+`−(L/2)` (integer half) and ends every call in `(−L−1, −L]`, so `r·total_in − total_out ∈ [r·(L − L/2), r·(L − L/2 + 1))` -/
+theorem fixedOut_no_drift_any_length {s : AState ℚ ℚ} (hi : FixedOut.Inv s) (h0 : s.lastIndex = -((s.L / 2 : ℕ) : ℚ))
+    (hrt : s.ratio = s.target) (as : List (CallArgs ℚ)) (hne : as ≠ []) (hok : AllOk s as) :
+    s.ratio * ((s.L : ℚ) - ((s.L / 2 : ℕ) : ℚ)) ≤ s.ratio * (runOut s (0, 0) as).2.1 - (runOut s (0, 0) as).2.2 ∧
+    s.ratio * (runOut s (0, 0) as).2.1 - (runOut s (0, 0) as).2.2 < s.ratio * ((s.L : ℚ) - ((s.L / 2 : ℕ) : ℚ) + 1) := by
+  have hr : 0 < s.ratio := hi.ratio_pos
+  obtain ⟨e, -, hLL, hst⟩ := fixedOut_potential s.ratio hr as s 0 0 hi rfl hrt.symm hok
+  obtain ⟨lo, hi'⟩ := hst hne
+  rw [hLL] at lo hi'
+  simp only [Nat.cast_zero, zero_add, sub_zero] at e
+  have hr0 : s.ratio ≠ 0 := ne_of_gt hr
+  rw [eq_div_iff hr0] at e
+  have key : s.ratio * ((runOut s (0, 0) as).2.1 : ℚ) - (runOut s (0, 0) as).2.2
+      = s.ratio * (s.lastIndex - (runOut s (0, 0) as).1.lastIndex) := by linarith
+  rw [key, h0]
+  constructor
+  · apply mul_le_mul_of_nonneg_left _ (le_of_lt hr); linarith
+  · apply mul_lt_mul_of_pos_left _ hr; linarith
+
 /-- the fixed-output interval is inside the constant of the property statement -/
 theorem fixedOut_constant_within_statement (L : ℕ) (r : ℚ) (hr : 0 < r) :
     r * (((L / 2 : ℕ) : ℚ) + 1) ≤ r * (L + 1 / r + 3) + 3 := by
